@@ -209,6 +209,14 @@ func (b *Batch) Commit() error {
 		return err
 	}
 
+	// 当前活跃文件剩余空间不足以容纳完成标识记录时, 将其写入新的活跃文件
+	// 重启加载时允许完成标识记录与批处理数据位于不同的数据文件
+	if b.db.activeFile.Size() > 0 && b.db.activeFile.Size()+maxFinRecord > b.db.options.DataFileSize {
+		if err := b.db.sync(); err != nil {
+			return err
+		}
+	}
+
 	// 追加批处理完成标识记录
 	logRecord := b.db.recordPool.Get().(*datafile.LogRecord)
 	logRecord.Key = append(logRecord.Key, b.batchID.Bytes()...)
